@@ -72,6 +72,25 @@ func runC06(c *Ctx, idx int, o *Obs) {
 		opts.Names = "simple"
 	}
 	R := gen.Tree(r, opts)
+	labelClash := false
+	if r.Intn(4) == 0 {
+		labelClash = true // such trees have no Nexus (translate) form: node names must be unique there
+		// taxonomy-like labels: some inner nodes carry the name of a tip (legal: only tips are looked up by name)
+		tn := R.Tips()
+		var inner []*ref.Node
+		for _, nd := range allNodes(R)[1:] {
+			if !nd.IsTip() && !nd.Sup.Has {
+				inner = append(inner, nd)
+			}
+		}
+		for j := 0; j < 3 && len(inner) > 0; j++ {
+			inner[r.Intn(len(inner))].Name = tn[r.Intn(len(tn))]
+		}
+		if r.Intn(2) == 0 && !R.Root.Sup.Has {
+			R.Root.Name = tn[r.Intn(len(tn))]
+		}
+		o.Ev("inner_labels_equal_to_tip_names", 1)
+	}
 	start := R.Newick()
 	o.Sample = Trunc(start, 300)
 	o.Class = fmt.Sprintf("%s/root%d/len-%s", opts.Shape, len(R.Root.Children), opts.Lens)
@@ -227,7 +246,7 @@ func runC06(c *Ctx, idx int, o *Obs) {
 
 		// the same through the command
 		if useCLI && si < 3 {
-			inArgs, inStdin, inMode := presentTrees(c, r, "in", []string{start}, plainNewick(start))
+			inArgs, inStdin, inMode := presentTrees(c, r, "in", []string{start}, plainNewick(start) && !labelClash)
 			o.Ev("cli_input:"+inMode, 1)
 			var res cliRes
 			mode := si % 2
